@@ -207,21 +207,15 @@ def multiStep (E : Env) (k : Kind) (s : MultiState) : MultiOp →
 
 /-! ### Ref
 
-A form `Dict{ sub: Dict{ t: <scalar k> }, r: Ref('../sub/t') }`.  `Ref.target` is a
-`lazy_property`: the element found at first use is cached on the Ref. -/
+A form `Dict{ sub: Dict{ t: <scalar k> }, r: Ref('../sub/t') }`.  Since fix b196482 `Ref.target`
+is a plain property: the element at the target path is looked up on every access, so the only
+state is the state of that element. -/
 
 inductive Writable | ignore | yes | no
   deriving DecidableEq, Repr, Inhabited
 
-inductive RefCache
-  | unresolved
-  | current                      -- the cached target is the element now sitting at the path
-  | detached (st : SState)       -- the cached target was replaced in the tree; its state lives on
-  deriving DecidableEq, Repr, Inhabited
-
 structure RefState where
   t : SState                     -- state of the element now at `sub/t`
-  cache : RefCache
   deriving DecidableEq, Repr, Inhabited
 
 inductive RefOp
@@ -231,22 +225,9 @@ inductive RefOp
   | refSet (x : Native)          -- `form['r'].set(x)`
   deriving Repr, Inhabited
 
-/-- the state of the element the Ref proxies (resolving the cache) -/
-def RefState.proxied (s : RefState) : SState :=
-  match s.cache with
-  | .detached st => st
-  | _ => s.t
-
-def RefState.resolve (s : RefState) : RefState :=
-  match s.cache with
-  | .unresolved => { s with cache := .current }
-  | _ => s
-
-/-- write `value`/`u` through to the cached target (`self.target.value = ...`) -/
+/-- write `value`/`u` through to the target (`self.target.value = ...`) -/
 def RefState.write (s : RefState) (v : Native) (u : Str) : RefState :=
-  match s.cache with
-  | .detached st => { s with cache := .detached { st with value := v, u := u } }
-  | _ => { s with t := { s.t with value := v, u := u }, cache := .current }
+  { s with t := { s.t with value := v, u := u } }
 
 inductive RefRaise | typeError | scalar (r : Raise)
   deriving DecidableEq, Repr, Inhabited
@@ -259,20 +240,14 @@ def RefState.step (E : Env) (k : Kind) (w : Writable) (s : RefState) :
     | .error e => .error (.scalar e)
     | .ok r => .ok ({ s with t := r.st }, some r.flag, none)
   | .subSet x =>
+    -- a fresh member takes the place of the old one; the Ref finds it at its next access
     match setScalar E k x with
     | .error e => .error (.scalar e)
-    | .ok r =>
-      let cache := match s.cache with
-        | .current => RefCache.detached s.t       -- the old member leaves the tree, the Ref keeps it
-        | c => c
-      .ok ({ t := r.st, cache := cache }, some r.flag, none)
-  | .read =>
-    let s := s.resolve
-    .ok (s, none, some (s.proxied.value, s.proxied.u))
+    | .ok r => .ok ({ t := r.st }, some r.flag, none)
+  | .read => .ok (s, none, some (s.t.value, s.t.u))          -- `self.target.value`, `self.target.u`
   | .refSet x =>
     -- Scalar.set on the Ref: adapt/serialize are the target's, value/u assignments go through the
     -- `writable` switch
-    let s := s.resolve
     match adapt E k x with
     | .error e => .error (.scalar e)
     | .ok (some v) =>
@@ -293,5 +268,78 @@ def RefState.step (E : Env) (k : Kind) (w : Writable) (s : RefState) :
       | .yes => match uOfFailed E.T x with
                 | .error e => .error (.scalar e)
                 | .ok u => .ok (s.write .none u, some false, none)
+
+/-! ### Ref into a List: `Dict{ l: List.of(<scalar k>), r: Ref('../l/0') }`
+
+The target path names a position; mutations of the list change which element sits there. -/
+
+inductive RefListOp
+  | listSet (xs : List Native)   -- `form['l'].set(xs)`
+  | insertFront (x : Native)     -- `form['l'].insert(0, x)`
+  | deleteFront                  -- `del form['l'][0]`
+  | memberSet (i : Nat) (x : Native)
+  | read
+  | refSet (x : Native)
+  deriving Repr, Inhabited
+
+inductive RefListRaise | typeError | lookupError | indexError | scalar (r : Raise)
+  deriving DecidableEq, Repr, Inhabited
+
+def setHead (s : List SState) (v : Native) (u : Str) : List SState :=
+  match s with
+  | [] => []
+  | m :: rest => { m with value := v, u := u } :: rest
+
+def refListStep (E : Env) (k : Kind) (w : Writable) (s : List SState) :
+    RefListOp → Except RefListRaise (List SState × Option Bool × Option (Native × Str))
+  | .listSet xs =>
+    let outs := xs.map fun v => setScalar E k v
+    match outs.findSome? (fun o => match o with | .error e => some e | .ok _ => none) with
+    | some e => .error (.scalar e)
+    | none =>
+      let oks := outs.filterMap fun o => match o with | .ok r => some r | .error _ => none
+      .ok (oks.map (·.st), some (oks.all (·.flag)), none)
+  | .insertFront x =>
+    match setScalar E k x with
+    | .error e => .error (.scalar e)
+    | .ok r => .ok (r.st :: s, none, none)
+  | .deleteFront =>
+    match s with
+    | [] => .error .indexError
+    | _ :: rest => .ok (rest, none, none)
+  | .memberSet i x =>
+    if i < s.length then
+      match setScalar E k x with
+      | .error e => .error (.scalar e)
+      | .ok r => .ok (s.set i r.st, some r.flag, none)
+    else .error .indexError
+  | .read =>
+    match s with
+    | [] => .error .lookupError                      -- `find_one` finds no child '0'
+    | m :: _ => .ok (s, none, some (m.value, m.u))
+  | .refSet x =>
+    match s with
+    | [] => .error .lookupError
+    | _ :: _ =>
+      match adapt E k x with
+      | .error e => .error (.scalar e)
+      | .ok (some v) =>
+        match w with
+        | .no => .error .typeError
+        | .ignore => match uOfValue E k v with
+                     | .error e => .error (.scalar e)
+                     | .ok _ => .ok (s, some true, none)
+        | .yes => match uOfValue E k v with
+                  | .error e => .error (.scalar e)
+                  | .ok u => .ok (setHead s v u, some true, none)
+      | .ok none =>
+        match w with
+        | .no => .error .typeError
+        | .ignore => match uOfFailed E.T x with
+                     | .error e => .error (.scalar e)
+                     | .ok _ => .ok (s, some false, none)
+        | .yes => match uOfFailed E.T x with
+                  | .error e => .error (.scalar e)
+                  | .ok u => .ok (setHead s .none u, some false, none)
 
 end Flatland.C18
